@@ -172,9 +172,10 @@ def bounded(K):
         gv(sps=8, R=10e9)
         N = 2 ** 16
         rng = np.random.default_rng(seed)
-        for shape in ((N,), (2, N)):
-            s = (rng.normal(size=shape) + 1j * rng.normal(size=shape)) * 0.01
-            for noise in (None, (rng.normal(size=shape) + 1j * rng.normal(size=shape)) * 1e-3):
+        for shape, real_field in (((N,), False), ((2, N), False), ((N,), True), ((2, N), True)):
+            # real_field: the field (and its noise) stored as real arrays, e.g. a sine or a CW carrier built from np.ones
+            s = (rng.normal(size=shape) + (0 if real_field else 1j * rng.normal(size=shape))) * 0.01
+            for noise in (None, (rng.normal(size=shape) + (0 if real_field else 1j * rng.normal(size=shape))) * 1e-3):
                 for G in ((0.0, 10.0, 25.0, 40.0) if thorough else (0.0, 20.0, 40.0)):
                     for NF in ((3.0, 5.0, 10.0) if thorough else (3.0, 6.0)):
                         np.random.seed(seed + 11)
@@ -182,12 +183,15 @@ def bounded(K):
                         np.random.seed(seed + 11)
                         y0 = EDFA(O(s), G, NF)
                         n += 1
-                        seen.add((len(shape), noise is not None, G, NF))
+                        seen.add((len(shape), real_field, noise is not None, G, NF))
                         g = 10 ** (G / 20)
                         ase = y0.noise
                         P = 10 ** (NF / 10) * h * gv.f0 * (10 ** (G / 10) - 1) * gv.fs
                         meas = float(np.mean(np.abs(ase) ** 2, axis=-1).sum())
                         ok = y.signal.shape == (2, N) and (P == 0 and meas == 0 or abs(meas - P) <= 6 * P / np.sqrt(2 * N) + 1e-12 * P)
+                        if P > 0:        # circular: half of the ASE power in each quadrature
+                            im_share = float(np.mean(ase.imag ** 2, axis=-1).sum()) / meas if meas > 0 else 0.0
+                            ok = ok and abs(im_share - 0.5) <= 6 / np.sqrt(2 * N)
                         rows = 2 if len(shape) == 2 else 1
                         ok = ok and np.allclose(y.signal[:rows], g * s) and (rows == 2 or not y.signal[1].any())
                         resid = y.noise - ase
@@ -197,12 +201,12 @@ def bounded(K):
                             osnr_out = np.sum(np.abs(y.signal) ** 2) / np.sum(np.abs(y.noise) ** 2)
                             ok = ok and osnr_out <= osnr_in * (1 + 1e-2)
                         if not ok:
-                            bad.append({'pols': rows, 'noise': noise is not None, 'G': G, 'NF': NF, 'ase_power': meas, 'expected': P})
+                            bad.append({'pols': rows, 'real_valued_field': real_field, 'noise': noise is not None, 'G': G, 'NF': NF, 'ase_power': meas, 'expected': P})
         gv.clean()
         return {'n': n, 'distinct': len(seen), 'bad': bad[:6], 'nbad': len(bad)}
     st, r = native(work, 1800)
     K.bounded('ase_power', st == 'ok' and r['nbad'] == 0, {'evaluations': r['n'] if st == 'ok' else 0, 'distinct_nontrivial': r['distinct'] if st == 'ok' else 0,
-              'bound': '2 layouts x noise on/off x G in {0,20,40} x NF in {3,6} (thorough: 4 x 3), 2^16 samples, six-sigma band on total ASE power', 'samples': [{'pols': 1, 'noise': True, 'G': 20, 'NF': 6}],
+              'bound': '2 layouts x complex/real-valued fields x noise on/off x G in {0,20,40} x NF in {3,6} (thorough: 4 x 3), 2^16 samples, six-sigma band on total ASE power and on the share of the imaginary quadrature', 'samples': [{'pols': 1, 'noise': True, 'G': 20, 'NF': 6}],
               'failures': r if st == 'ok' else [st, r]})
 
 
